@@ -243,13 +243,18 @@ impl<'a> Gen<'a> {
     fn fin_act(&mut self, depth: usize) -> Act {
         let resurrect = self.rng.chance(self.p.resurrect_pct as u64, 100);
         if resurrect {
-            match self.rng.idx(if self.p.weak_neutral { 3 } else { 5 }) {
+            match self.rng.idx(if self.p.weak_neutral { 4 } else { 9 }) {
                 0 => Act::Clone { src: Src::MeT(self.rng.idx(NT) as u8), dst: Dst::G(self.glob()) },
                 1 => Act::Clone { src: Src::MeT(self.rng.idx(NT) as u8), dst: Dst::Slot(Own::G(self.glob()), self.rng.chance(1, 4), 0) },
                 2 => Act::Take { src: Src::MeT(self.rng.idx(NT) as u8), dst: Dst::G(self.glob()) },
+                // a neighbour parked in one of the object's own slots (still only reachable through the garbage)
+                3 => Act::Clone { src: Src::MeT(self.rng.idx(NT) as u8), dst: Dst::Slot(Own::Me, self.rng.chance(1, 3), self.rng.idx(NT) as u8) },
                 // self resurrection through the self-weak kept in weak slot 0
-                3 => Act::Upgrade { src: WLoc::Of(Own::Me, 0), dst: Dst::G(self.glob()) },
-                _ => Act::Upgrade { src: WLoc::Of(Own::Me, 1), dst: Dst::G(self.glob()) },
+                4 | 5 => Act::Upgrade { src: WLoc::Of(Own::Me, 0), dst: Dst::G(self.glob()) },
+                6 => Act::Upgrade { src: WLoc::Of(Own::Me, 1), dst: Dst::G(self.glob()) },
+                // ... or into a slot of the object itself / of a neighbour: alive again by its own count, yet unreachable
+                7 => Act::Upgrade { src: WLoc::Of(Own::Me, 0), dst: Dst::Slot(Own::Me, self.rng.chance(1, 4), self.rng.idx(NT) as u8) },
+                _ => Act::Upgrade { src: WLoc::Of(Own::Me, self.rng.idx(NW) as u8), dst: Dst::Slot(Own::G(self.glob()), false, self.rng.idx(NT) as u8) },
             }
         } else {
             match self.rng.idx(14) {
